@@ -48,6 +48,7 @@ class Cfg:
         self.max_files = 3
         self.syntaxes = ["proto2", "proto3", "editions"]
         self.size = 3               # rough number of top-level messages / fields per message
+        self.rel_names = True       # spell type references relative to an enclosing scope / package sometimes
         self.__dict__.update(kw)
 
 
@@ -91,6 +92,7 @@ class _Gen:
         self.ext_numbers = {}       # extendee fqn -> next number (shared across the program through prog)
         self.field_opt = None       # a custom field option usable in this file: (fqn-in-parens)
         self.msg_opt = None
+        self.scope_stack = []       # full names of the enclosing messages / service, outermost first
 
     def uid(self):
         self.counter += 1
@@ -215,10 +217,30 @@ class _Gen:
             return str(rng.choice([0, 1, 42, 4000000000]) if "64" in s or s in ("uint32", "fixed32") else rng.choice([0, 1, 42]))
         return str(rng.choice([0, 1, -1, 42, -2147483648]))
 
+    def spell(self, fqn):
+        """One of the valid spellings of a reference to fqn from the current scope: fully qualified with a
+        leading dot, fully qualified without it, or relative to an enclosing message of this file or to a
+        prefix of this file's package. All declared names are unique, so no nearer scope can capture the
+        first component."""
+        rng = self.rng
+        if not self.cfg.rel_names or rng.chance(1, 2):
+            return "." + fqn
+        parts = fqn.split(".")
+        cands = [fqn]
+        bases = list(self.scope_stack)
+        pk = self.f.package.split(".") if self.f.package else []
+        for k in range(1, len(pk) + 1):
+            bases.append(".".join(pk[:k]))
+        for b in bases:
+            bp = b.split(".")
+            if len(bp) < len(parts) and parts[:len(bp)] == bp:
+                cands.append(".".join(parts[len(bp):]))
+        return rng.choice(cands)
+
     def type_text(self, t):
         if t[0] == "scalar":
             return t[1]
-        return "." + t[1]
+        return self.spell(t[1])
 
     # ---- one field
     def gen_field(self, ind, number, in_oneof=False, is_ext=False, scope_delim=None):
@@ -340,6 +362,7 @@ class _Gen:
         extendable = f.syntax != "proto3" and cfg.extensions and rng.chance(1, 3)
         # register before the body so that fields can be self-recursive
         f.msgs.append((fqn, extendable, f.syntax))
+        self.scope_stack.append(fqn)
         self.emit(ind, "message %s {" % name)
         if f.syntax == "editions" and cfg.features and rng.chance(1, 5):
             self.emit(ind + 1, "option features.json_format = %s;" % _pick_feature(rng, cfg, "json_format"))
@@ -385,6 +408,7 @@ class _Gen:
         if cfg.extensions and f.syntax != "proto3" and rng.chance(1, 5):
             self.gen_extend(ind + 1)
         self.emit(ind, "}")
+        self.scope_stack.pop()
         return fqn
 
     def gen_extend(self, ind):
@@ -394,7 +418,7 @@ class _Gen:
             return
         ext = rng.choice(cands)
         nums = self.prog.__dict__.setdefault("ext_numbers", {})
-        self.emit(ind, "extend .%s {" % ext[0])
+        self.emit(ind, "extend %s {" % self.spell(ext[0]))
         for _ in range(rng.range(1, 3)):
             n = nums.get(ext[0], 1000)
             nums[ext[0]] = n + 1
@@ -410,8 +434,8 @@ class _Gen:
         for _ in range(rng.range(1, 3)):
             a = rng.choice(ms)[1][0]
             b = rng.choice(ms)[1][0]
-            self.emit(1, "rpc R%d(%s.%s) returns (%s.%s)%s" % (
-                self.uid(), "stream " if rng.chance(1, 4) else "", a, "stream " if rng.chance(1, 4) else "", b,
+            self.emit(1, "rpc R%d(%s%s) returns (%s%s)%s" % (
+                self.uid(), "stream " if rng.chance(1, 4) else "", self.spell(a), "stream " if rng.chance(1, 4) else "", self.spell(b),
                 " { option deprecated = true; }" if rng.chance(1, 5) else ";"))
         self.emit(0, "}")
 
